@@ -11,9 +11,12 @@ def get_p(M, ma, mb):
     m_p = (ma + mb) ** 2
     m_m = (ma - mb) ** 2
     p2 = (m2 - m_p) * (m2 - m_m)
+    # Python floats must become float64 tensors directly: tf.zeros_like(python_float) and
+    # tf.cast(python_float, tf.float64) both go through float32
+    p2 = tf.cast(tf.convert_to_tensor(p2, dtype_hint=tf.float64), tf.float64)
+    M = tf.cast(tf.convert_to_tensor(M, dtype_hint=tf.float64), tf.float64)
     p = tf.where(p2 <= 0, tf.zeros_like(p2), p2)
-    p = tf.cast(p, tf.float64)
-    ret = tf.sqrt(p) / (2.0 * tf.cast(M, p.dtype))
+    ret = tf.sqrt(p) / (2.0 * M)
     return ret
 
 
